@@ -702,9 +702,9 @@ func lemmaCreateThenMapQueue(data []byte, cap uint32) {
 //@   ghost var resetOK bool = false
 //@   at call (*Stream).reset#0 ghost resetOK := r0 == nil
 //@   at call (*streamPool).push#0 ghost pushed := r0 == nil
-//@   at call (*Stream).Close#0 ghost closed := true
-//@   at call (*Stream).Close#1 ghost closed := true
-//@   at call (*Stream).Close#2 ghost closed := true
+//@   at call? (*Stream).Close#0 ghost closed := true
+//@   at call? (*Stream).Close#1 ghost closed := true
+//@   at call? (*Stream).Close#2 ghost closed := true
 //@   exit     pushed != closed
 //@   exit     old(s.inFallbackState) ==> closed
 //@   exit     pushed ==> resetOK
